@@ -263,6 +263,11 @@ func (st *state) flipRevision(tp *sim.Tape) {
 		}
 	}
 	st.revN[fn]++
+	if tp.Next(3) == 0 {
+		// the new active revision has no endpoint yet, the deactivated one still serves
+		st.w.EndpointPending = true
+		st.s.Probe("active-revision-without-endpoint-yet")
+	}
 	_ = st.w.AddFunctionRevision(fn, st.revN[fn], true)
 	st.s.Probe("active-revision-changed")
 }
